@@ -4,6 +4,8 @@ from .run import Family
 
 
 class HandoffFamily(Family):
+    race = True
+    race_cases = 40
     prop = "C10"
     harness_mode = ["handoff"]
     driver_args = ["handoff"]
